@@ -73,7 +73,7 @@ pub struct Invocation<'a> {
 
 impl<'a> Invocation<'a> {
     pub fn new(args: Vec<String>) -> Self {
-        Invocation { args, stdin: None, cwd: None, env: vec![], clear_env: false, timeout: Duration::from_secs(10), program: None, pre_args: vec![] }
+        Invocation { args, stdin: None, cwd: None, env: vec![], clear_env: false, timeout: Duration::from_secs(60), program: None, pre_args: vec![] }
     }
 }
 
